@@ -3,6 +3,7 @@ package checks
 import (
 	"flag"
 	"fmt"
+	"io"
 	"math/rand"
 	"os"
 	"regexp"
@@ -166,6 +167,10 @@ type hNode struct {
 	desc       string
 	longDesc   string
 	printTwice bool
+	// primeOther: before the judged help the Action prints the other kind (long before short, short before long) into
+	// a discarded stream: what one kind of help printed must not change the other
+	primeOther bool
+	mainOut    io.Writer
 	bareKids   bool
 	hidden     bool
 	spec       string // as given ("" = none)
@@ -411,6 +416,15 @@ func genHelpNode(r *rand.Rand, name string, depth int, parent *hNode, version bo
 			if n.printTwice {
 				times = 2
 			}
+			if n.primeOther {
+				cli.VerifSetStdErr(io.Discard)
+				if n.printFromAction == 1 {
+					c.PrintLongHelp()
+				} else {
+					c.PrintHelp()
+				}
+				cli.VerifSetStdErr(n.mainOut)
+			}
 			for twice := 0; twice < times; twice++ {
 				switch n.printFromAction {
 				case 1:
@@ -443,7 +457,7 @@ func init() {
 		Technique: "runtime monitor: the help the real library renders (long help via --help, short help via a usage error) is parsed back and compared with a model of the declarations",
 		Rule: "random command trees (depth<=2) with random declarations per command: option name lists (only long, only short, several of each), descriptions (empty, one line, multi-line, with parentheses and $, padded), " +
 			"environment lists with irregular blanks (one variable actually set, to show that the default displayed is the declared one; names in any letter case, one written with a leading $, one longer than forty characters), defaults of every built-in type (short ones and ones of more than forty characters, shown to their end) incl. the 'empty' ones (false, \"\", empty slices) and 0 / 0.0, HideValue, " +
-			"hidden commands, LongDesc, aliases, a version flag; a random command of the tree is addressed and its help requested with --help (long), provoked by a usage error (short), or printed by the command's own Action through PrintHelp / PrintLongHelp. " +
+			"hidden commands, LongDesc, aliases, a version flag; a random command of the tree is addressed and its help requested with --help (long), provoked by a usage error (short), or printed by the command's own Action through PrintHelp / PrintLongHelp (where the library allows repeated printing: twice, and half of the time after the other kind of help was printed into a discarded stream). " +
 			"Oracle (DESIGN 3.8): usage line = 'Usage: <full path> <trimmed spec, synthesised when none>' + ' COMMAND [arg...]' iff it has subcommands; description (LongDesc for --help when set); sections in the order Arguments, Options, Commands; " +
 			"one row per declared argument / option (first one-letter and first longer name) / non-hidden subcommand (all aliases), in declaration order, each with description, (env $A, $B) iff a list was given, (default V) iff not hidden and V non-empty; nothing else in the sections. " +
 			"Layout (column widths, blank lines) is not judged. non-trivial = help of a command with >=2 declared elements; distinct by (tree, addressed command, kind of help).",
@@ -548,6 +562,7 @@ func runC17(c *core.Ctx) {
 				target.printTwice = false
 			}
 		}
+		target.primeOther = target.printTwice && r.Intn(2) == 0
 	case long:
 		argv = append(argv, []string{"--help", "-h"}[r.Intn(2)])
 	default:
@@ -565,6 +580,10 @@ func runC17(c *core.Ctx) {
 	}
 	var buf strings.Builder
 	cli.VerifSetStdErr(&buf)
+	target.mainOut = &buf
+	if target.primeOther {
+		c.Inc("other_kind_of_help_printed_first")
+	}
 	app := cli.App("app", root.desc)
 	app.ErrorHandling = flag.ContinueOnError
 	if version {
